@@ -61,6 +61,21 @@ def rv(args, stdin=None, timeout=3600):
     return out
 
 
+def rv_parallel(cmd, cases, tag, extra=(), procs=8, timeout=3600):
+    """Run `rv <cmd> --cases chunk` on several processes; events keep case order."""
+    d = rundir(tag)
+    procs = max(1, min(procs, len(cases)))
+    chunks = [cases[i::procs] for i in range(procs)]
+    paths = []
+    for i, ch in enumerate(chunks):
+        pth = os.path.join(d, f"cases{i}.ndjson")
+        write_ndjson(pth, ch)
+        paths.append(pth)
+    with ThreadPoolExecutor(max_workers=procs) as ex:
+        outs = list(ex.map(lambda pth: rv([cmd, "--cases", pth] + list(extra), timeout=timeout), paths))
+    return [e for o in outs for e in o]
+
+
 def rundir(prop):
     d = os.path.join(RUNS, prop)
     os.makedirs(d, exist_ok=True)
@@ -402,6 +417,11 @@ class Outcome:
                 print(f"  {text}"[:600])
             seen.add(path)
         if self.violations:
+            by = {}
+            for sig, path, text in self.violations:
+                by[sig[:120]] = by.get(sig[:120], 0) + 1
+            for sig, n in sorted(by.items(), key=lambda kv: -kv[1])[:15]:
+                print(f"  {n:5d} x {sig}")
             print(f"{self.prop}: {len(self.violations)} violation(s)")
             return 1
         print(f"{self.prop}: ok ({self.tier}, seed {self.seed}, {ev['wall_s']}s)")
